@@ -775,6 +775,12 @@ class Interp:
                 return self.call_value(lift(o.func), [lift(a) for a in o.args] + list(args), {**{k: lift(v) for k, v in o.keywords.items()}, **kwargs})
             if isinstance(o, types.MethodType):
                 return self.call_value(lift(o.__func__), [lift(o.__self__)] + list(args), kwargs)
+            if isinstance(o, types.BuiltinMethodType) and isinstance(getattr(o, "__self__", None), type):
+                # classmethod of a builtin/C class (datetime.fromisoformat, ...): model registered with @builtin_method(cls, name)
+                bm = self.lib.BUILTIN_METHODS.get((o.__self__, o.__name__))
+                if bm is not None:
+                    self.ex.note("lib", f"{o.__self__.__name__}.{o.__name__}")
+                    return bm(self, lift(o.__self__), *args, **kwargs)
             m = self.lib.lookup_function(o)
             name = f"{getattr(o, '__module__', '?')}:{getattr(o, '__qualname__', getattr(o, '__name__', '?'))}"
             summ = self.ex.summaries.get(name)
